@@ -265,7 +265,7 @@ def gen_rx(ctx, tiny, normal):
                 fill = k * T + d
                 for tail in (tails if not quick else rng.sample(tails, 14)):
                     head = rng.choice([b'\r', b'\n', b'a', b'\r\n', b''])
-                    data = head + mixed_body(rng, fill - len(head)) + tail
+                    data = head + mixed_body(rng, fill - len(head), 70 if bufsz <= 4096 else 900) + tail
                     r = rng.random()
                     if r < 0.4:
                         chunks = [data]
@@ -329,12 +329,13 @@ def gen_rx(ctx, tiny, normal):
     return by
 
 
-def mixed_body(rng, n):
+def mixed_body(rng, n, maxline=70):
+    """text lines; the model walks lists, so long fillers get long lines (fewer CRLF pairs to rewrite)"""
     if n <= 0:
         return b''
     out = bytearray()
     while len(out) < n:
-        out += bytes(rng.choice(b'abcdefgh ') for _ in range(rng.randrange(0, 70))) + rng.choice([b'\r\n', b'\r\n', b'\r\n', b'\n', b'\r', b'\r\r\n'])
+        out += bytes(rng.choice(b'abcdefgh ') for _ in range(rng.randrange(0, maxline))) + rng.choice([b'\r\n', b'\r\n', b'\r\n', b'\n', b'\r', b'\r\r\n'])
     return bytes(out[:n])
 
 
@@ -424,9 +425,12 @@ def run(ctx):
                 ctx.notes.append('corpus case for an unbuilt buffer size skipped: ' + c[:60])
     for b in sorted(by):
         if hrx.get(b):
-            vlib.differential(ctx, 'smtp_bdat[buf=%d]' % b, hrx[b], by[b], canon_h=canon_rx, canon_m=canon_rx, pred=pred_rx,
-                              nontrivial=lambda c, o: ' QE' in o or o.startswith('QE'),
-                              corr_name='model QsmtpModel.Bdat.session (smtpBdat, netReadbin, netRead) vs qsmtpd/data.c:smtp_bdat + lib/netio.c, CHUNK_READ_SIZE=%d' % b)
+            # long streams cost the (list based) model up to ~0.5 s each: keep every driver process short
+            step = len(by[b]) if b <= 4096 else 60
+            for k in range(0, len(by[b]), max(1, step)):
+                vlib.differential(ctx, 'smtp_bdat[buf=%d]' % b, hrx[b], by[b][k:k + step], canon_h=canon_rx, canon_m=canon_rx, pred=pred_rx,
+                                  nontrivial=lambda c, o: ' QE' in o or o.startswith('QE'),
+                                  corr_name='model QsmtpModel.Bdat.session (smtpBdat, netReadbin, netRead) vs qsmtpd/data.c:smtp_bdat + lib/netio.c, CHUNK_READ_SIZE=%d' % b)
     if not ctx.quick():
         vlib.leanchecker(ctx, ['QsmtpModel.Props.C19', 'QsmtpModel.Lemmas.Bdat', 'QsmtpModel.Lemmas.BdatRx'])
     return vlib.finish(ctx, assumptions=[
